@@ -58,6 +58,7 @@ var c18Templates = []string{
 	"package t\n\n@goht C() {\n\t.c{a: \"b\"} x\n}\n",
 	"package t\n\n@goht Bad() {\n%p not indented\n}\n", // does not compile
 	"package t\n\n@goht Bad2() {\n\t%p x\n",            // unterminated
+	"package t\n\n@goht M() {\n\t%p\n\t\t%span> outer\n\t\t%span< inner\n\t\t%i<> both\n\t%br>\n}\n", // white-space markers (their sentinels are part of the generated code)
 	// accepted by the template parser, but the generated Go is not Go (the gofmt step of the command fails)
 	"package t\n\nvar broken = = 1\n\n@goht Bad3() {\n\t%p x\n}\n",
 	"package t\n\n@goht Bad4(s string) {\n\t%p= s +\n}\n",
@@ -97,6 +98,10 @@ func (c *Ctx) genTree() treeSpec {
 		p := filepath.Join(d, name)
 		src := c18Templates[c.R.Intn(len(c18Templates))]
 		t.files[p] = src
+		if c.R.Intn(4) == 0 {
+			// an unrelated file whose name sorts between the template and its output (editor backup, dependency file, copy)
+			t.files[p+[]string{".bak", ".d", "-old", " (copy)", ".fo"}[c.R.Intn(5)]] = "unrelated neighbour\n"
+		}
 		switch c.R.Intn(5) {
 		case 0: // up-to-date output (content is whatever: must not be rewritten)
 			t.files[p+".go"] = "// up to date marker " + name + "\npackage t\n"
@@ -148,7 +153,7 @@ func (t treeSpec) write(root string, base time.Time) {
 
 func c18(c *Ctx) {
 	c.Rep.TieObs = []string{"O-gen: the directory tree after each run of the real `goht generate` binary (names, contents, modification times)"}
-	c.Rep.Rule = "random directory trees (nested dirs, vendor / node_modules / dot / underscore / --skip-dirs directories at several depths, orphaned outputs, templates that do not compile (rejected by the template parser; accepted but with generated code that gofmt rejects), unrelated files, up-to-date and stale outputs, also by less than a second within one wall-clock second) x flag sets (--force, --keep, --skip-dirs, --max-workers 1 / 2 / 3 / 8, --path spelled eight ways: ., ./, absolute, with a trailing separator, with /., with a doubled separator, through .., relative from the parent) x histories of two or three runs with edits, touches and deletions in between; plus one tree with hundreds of templates; oracle: the tree after each run against the specification computed with the real compiler + gofmt; distinct = distinct (tree, flags, history); non-trivial = the run had at least one stale template"
+	c.Rep.Rule = "random directory trees (nested dirs, vendor / node_modules / dot / underscore / --skip-dirs directories at several depths, orphaned outputs, templates that do not compile (rejected by the template parser; accepted but with generated code that gofmt rejects), unrelated files (also with names that sort between a template and its output), up-to-date and stale outputs, also by less than a second within one wall-clock second) x flag sets (--force, --keep, --skip-dirs, --max-workers 1 / 2 / 3 / 8, --path spelled eight ways: ., ./, absolute, with a trailing separator, with /., with a doubled separator, through .., relative from the parent) x histories of two or three runs with edits, touches and deletions in between; plus one tree with hundreds of templates; oracle: the tree after each run against the specification computed with the real compiler + gofmt; distinct = distinct (tree, flags, history); non-trivial = the run had at least one stale template"
 	goht := filepath.Join(c.Build, "goht")
 	if !fileExists(goht) {
 		c.mismatch("setup", "", "goht binary missing", "", true)
